@@ -212,3 +212,60 @@ theorem type_zero {g : Grid} (a : Attrs) (z : Nat) (row : Row) (prev tc tc' : Ce
     simp
 
 end Vt.Recv
+
+/-! ### typing at the pending-wrap position -/
+namespace Vt.Recv
+open Vt
+set_option linter.unusedSimpArgs false
+
+variable (W : Nat → Option Nat)
+
+/-- the grid after the deferred wrap has happened: the line is flagged, the cursor is at the start of the next -/
+def wrapNext (g : Grid) (row : Row) : Grid :=
+  { g with rows := g.rows.set g.pos.row (row.wrap true), pos := ⟨g.pos.row + 1, 0⟩ }
+
+/-- a character of width ≥ 1 typed at the pending-wrap position, with a line below and the last column
+occupied: the wrap happens first (flagging the line), then the character is typed at the start of the next line -/
+theorem text_wraps {g : Grid} (h : Canvas g) (a : Attrs) (c w : Nat) (row : Row) (last : Cell)
+    (hw : (W c).getD 1 = w) (hw1 : 1 ≤ w) (hwc : w ≤ g.size.cols) (hnc : ¬ (W c = none ∧ c < 256))
+    (hcol : g.pos.col = g.size.cols) (hrow : g.rows[g.pos.row]? = some row) (hnext : g.pos.row + 1 < g.size.rows)
+    (hlast : row.cells[g.size.cols - 1]? = some last) (hocc : (last.hasContents || last.cont) = true) :
+    g.text W a c = (wrapNext g row).text W a c := by
+  have h1' : ((W c).isNone && decide (c < 256)) = false := by
+    cases hn : (W c).isNone <;> simp_all
+  have hlim : g.pos.col > g.size.cols - w := by omega
+  have hw0 : (w == 0) = false := by rw [beq_eq_false_iff_ne]; omega
+  have hc1 := h.cols_pos
+  -- the wrap decision and col_wrap on g
+  have hdec : g.wrapDecision w = .ok true := by
+    simp only [Grid.wrapDecision, subM_ok hwc, ok_bind, hlim, ↓reduceIte, subM_ok hc1, Grid.drawingCellM,
+      Grid.drawingCell, Grid.drawingRow, hrow, Option.bind_some, Row.get, hlast, pure_bind', Cell.isWideContinuation,
+      pure_eq_ok, Except.ok.injEq]
+    exact hocc
+  have hin : ({ g with pos := ⟨g.pos.row, 0⟩ } : Grid).inScrollRegion = true := by
+    simp [Grid.inScrollRegion, h.top, h.bottom]; omega
+  have hlf := C08.lf_inside ({ g with pos := ⟨g.pos.row, 0⟩ } : Grid) h.rows_pos
+    (by rw [hin]; simp only [↓reduceIte, h.bottom]; omega) (by have := h.rows_u16; simp only; omega)
+    (by simp [h.top])
+  have hcw : g.colWrap w true = .ok (wrapNext g row) := by
+    simp only [Grid.colWrap, subM_ok hwc, ok_bind, hlim, ↓reduceIte]
+    have : ({ g with pos := { g.pos with col := 0 } } : Grid) = { g with pos := ⟨g.pos.row, 0⟩ } := rfl
+    rw [this, hlf]
+    simp only [ok_bind, Nat.lt_irrefl, gt_iff_lt, decide_false, Bool.false_and, Bool.false_eq_true, ↓reduceIte,
+      subM_ok (Nat.zero_le _), Nat.sub_zero, modifyM, hrow, pure_bind', pure_eq_ok, beq_self_eq_true, Bool.and_self]
+    rfl
+  -- on the wrapped grid nothing wraps
+  have hdec' : (wrapNext g row).wrapDecision w = .ok false := by
+    have : ¬ (wrapNext g row).pos.col > (wrapNext g row).size.cols - w := by simp [wrapNext]
+    simp only [Grid.wrapDecision, show (wrapNext g row).size = g.size from rfl, subM_ok hwc, ok_bind]
+    simp only [show (wrapNext g row).size = g.size from rfl] at this
+    simp [this]
+  have hcw' : (wrapNext g row).colWrap w false = .ok (wrapNext g row) := by
+    have : ¬ (wrapNext g row).pos.col > (wrapNext g row).size.cols - w := by simp [wrapNext]
+    simp only [Grid.colWrap, show (wrapNext g row).size = g.size from rfl, subM_ok hwc, ok_bind]
+    simp only [show (wrapNext g row).size = g.size from rfl] at this
+    simp [this]
+  simp only [Grid.text, h1', Bool.false_eq_true, ↓reduceIte, hw, show ¬ (w > g.size.cols) by omega, hdec, ok_bind,
+    hcw, hw0, show (wrapNext g row).size = g.size from rfl, hdec', hcw']
+
+end Vt.Recv
